@@ -22,7 +22,7 @@ RULE = ("seeded scenarios: N in 1..12 (thorough ..40) vertices incl. zero-degree
         "per-topology shuffle schedule (uniform/identity/reverse/rotation/adjacent swaps/near-identity), "
         "thorough tier only: three generations at scale per 16000 runs (one custom motif with an orbit of 49..187 vertices and 2e4-3e4 instances: a "
         "column of 1-6 million stubs), fault plans (callback failure at k-th invocation, abort at k-th RNG decision) followed by reuse of "
-        "the generator object (rows as tuples, lists, tuples of numpy int64 or numpy rows), half of the plain re-uses with a row-permuted sequence (in place in the caller's list object or as a new list); "
+        "the generator object (rows as tuples, lists, tuples of numpy int64 / int8 or numpy int64 / uint8 rows; 10% of the custom motifs return numpy ids), half of the plain re-uses with a row-permuted sequence (in place in the caller's list object or as a new list); "
         "10% of the fast / network scenarios pass the library's own builder OBJECTS (no log: structural oracle); motif and orbit sizes "
         "occasionally from the boundary list up to 1025; non-trivial = at least one build-callback invocation (or emitted instance) happened; distinct = "
         "distinct execution digests (scenario operations + every RNG decision + outcome)")
